@@ -4,6 +4,12 @@ import checklib
 
 def decode(p):
     f = p.split(" ")
+    if f[0] in ("REC", "PAR"):
+        try:
+            return {"kind": f[0] + " (one literal node evaluated re-entrantly / by several goroutines)", "k": int(f[1]),
+                    "source": bytes.fromhex(f[2]).decode("utf8", "replace")}
+        except Exception:
+            return p
     try:
         return {"source": bytes.fromhex(f[0]).decode("utf8", "replace") if f[0] != "-" else "",
                 "kind": f[1], "candidates": len(f) - 3}
@@ -17,7 +23,9 @@ SPEC = dict(
     rule=("cases = one-literal programs: every sequence of <=3 (quick) / <=4 (thorough) atoms from "
           "{'{{','}}','{','}','\\\"',\"'\",'\\n',a..f (variables holding marker-laden text, one self-reproducing), "
           "1,+,space,x.cnt(1),x.cnt(2) (side-effect counter),'\\\\','\\u007b','\\u007d','é'} in the four literal forms, "
-          "plus random longer ones; compared: resulting string and ordered side-effect log. "
+          "plus random longer ones; plus kinds REC (an embedded expression re-evaluates the SAME literal node with n-1, "
+          "depth 1..4) and PAR (2..8 goroutines evaluate one literal node 300 times each with their own n); "
+          "compared: resulting string(s) and ordered side-effect log. "
           "Non-trivial = the literal contains at least one embedded expression (model's segmentation)."),
     exhaustive="all atom sequences up to the stated length in the interpolating double-quoted form",
     trusted_base=[
